@@ -6,6 +6,7 @@ import Jap.Gen.SetDefaultsLoop
 import Jap.Gen.SignatureOptional
 import Jap.Gen.MoveParserRequired
 import Jap.Gen.ArgvItemRoute
+import Jap.Lemmas.StylesX
 /-!
 # C07 — equivalent ways of declaring a nested group behave identically
 
@@ -426,5 +427,121 @@ example : routeOpt ["g.count", "g.limits", "g.tags", "g.tags+"] [] "g.coun" = .a
   simp only [List.mem_singleton] at hl
   subst hl
   rfl
+
+/-! ## the wider member grammar (`FieldX`, Core/StylesX.lean)
+
+Members may be leaves, dataclass-typed members (nested groups, dataclass in dataclass to any depth), `Optional[Dataclass]` members
+(`Node.optGroup`), `List[Dataclass]` members (`Node.listOf (.group ..)`) — the dataclass of such a member again over this grammar — and
+class-typed members.  Proved by structural induction over the field list (Lemmas/StylesX.lean). -/
+
+/-- **C07_same_table_X.**  For every key and every field list of the wider grammar the four declarations produce THE SAME ACTIONS
+    (destination, `+` option, kind, default / required) — `actsL`: one action per leaf / Optional[Dataclass] / List[Dataclass] / class member at
+    its dotted path, none for the fields of the dataclass of such a member — and they differ exactly in three lists:
+    `wholes` (dotted: none; the other three: the key and every nested dataclass-typed member),
+    `helps` (inner-parser: none; the other three: every class-typed member),
+    `lenientNull` (dataclass / class styles: none; dotted / inner-parser: the required class-typed members declared with add_subclass_arguments). -/
+theorem C07_same_table_X (key : String) (fields : List FieldX) :
+    (∀ s, (declX s key fields).entries = actsL [key] fields)
+    ∧ (∀ s, (declX s key fields).wholes = if s = .dotted then [] else [key] :: groupsXL [key] fields)
+    ∧ (∀ s, (declX s key fields).helps = if s = .inner then [] else clsPathsL allCls [key] fields)
+    ∧ (∀ s, (declX s key fields).lenientNull =
+        if s = .dotted ∨ s = .inner then clsPathsL reqVia [key] fields else []) := by
+  have hd := declDottedX_eq key fields
+  have hi := declInnerX_eq key fields
+  have hsg := declSigX_eq key fields
+  simp only [declX] at hd hi
+  refine ⟨?_, ?_, ?_, ?_⟩ <;> intro s <;> cases s <;> simp [declX, hd, hi, hsg]
+
+/-- **which style pairs differ on which member kinds** (exact, decidable classes).
+    (1) whole-group options (open finding C07-dotted-whole-group): two styles have the same iff both or neither is the dotted one — whatever the members;
+    (2) `.help` options (open finding C07-inner-class-help-option): differ iff exactly one of the two is the inner-parser style AND the list has a
+        class-typed member (at any depth of nested dataclass members);
+    (3) `null` taken while parsing by a required member (open finding C07-subclass-group-null): differ iff one style is dotted / inner-parser, the
+        other dataclass / class, AND the list has a required class-typed member declared with add_subclass_arguments.
+    Leaves, nested dataclasses, Optional[Dataclass] and List[Dataclass] members contribute to (1) only through the nested dataclass-typed members. -/
+theorem C07_style_pairs_differ_X (s s' : Style) (key : String) (fields : List FieldX) :
+    ((declX s key fields).wholes = (declX s' key fields).wholes ↔ (s = .dotted ↔ s' = .dotted))
+    ∧ ((declX s key fields).helps ≠ (declX s' key fields).helps ↔
+        ((s = .inner) ≠ (s' = .inner)) ∧ clsPathsL allCls [key] fields ≠ [])
+    ∧ ((declX s key fields).lenientNull ≠ (declX s' key fields).lenientNull ↔
+        ((s = .dotted ∨ s = .inner) ≠ (s' = .dotted ∨ s' = .inner)) ∧ clsPathsL reqVia [key] fields ≠ []) := by
+  obtain ⟨_, hw, hh, hl⟩ := C07_same_table_X key fields
+  rw [hw s, hw s', hh s, hh s', hl s, hl s']
+  have hne : ∀ (a b : List (List String)), (a = b) = (b = a) := fun a b => propext ⟨Eq.symm, Eq.symm⟩
+  refine ⟨?_, ?_, ?_⟩
+  · cases s <;> cases s' <;> simp
+  · cases hc : clsPathsL allCls [key] fields with
+    | nil => cases s <;> cases s' <;> simp
+    | cons a r => cases s <;> cases s' <;> simp
+  · cases hc : clsPathsL reqVia [key] fields with
+    | nil => cases s <;> cases s' <;> simp
+    | cons a r => cases s <;> cases s' <;> simp
+
+/-- **C07_styles_nondotted_X.**  Without class-typed members the three non-dotted declarations are the same table AND the same spec tree, so every
+    parse result — any function `F` of the action table and the spec tree `validate` runs on: accept/reject, values, dump — is the same. -/
+theorem C07_styles_nondotted_X {α : Type} (F : TableX → Fields → α) (s s' : Style) (key : String) (fields : List FieldX)
+    (hs : s ≠ .dotted) (hs' : s' ≠ .dotted) (hc : clsPathsL allCls [key] fields = []) (hr : clsPathsL reqVia [key] fields = []) :
+    F (declX s key fields) (specX true key fields) = F (declX s' key fields) (specX true key fields) := by
+  have h : ∀ t : Style, t ≠ .dotted → declX t key fields = ⟨actsL [key] fields, [key] :: groupsXL [key] fields, [], []⟩ := by
+    intro t ht
+    cases t with
+    | dotted => exact absurd rfl ht
+    | inner => rw [declInnerX_eq, hr]
+    | dataclass => simp only [declX]; rw [declSigX_eq, hc]
+    | classArgs => simp only [declX]; rw [declSigX_eq, hc]
+  rw [h s hs, h s' hs']
+
+/-- **C07_styles_partial_X.**  The dotted declaration against the others: the same actions; and `validate` gives the same verdict on the dotted spec
+    tree (no whole-group flags) as on the others' for every configuration in which no group key holds a string — through Optional[Dataclass] and
+    List[Dataclass] members as well (their dataclasses are validated by per-class parsers that are the same in the four styles). -/
+theorem C07_styles_partial_X (ld : String → Val) (s : Style) (key : String) (fields : List FieldX) (cfg : KV)
+    (h : noStrKVs (specX true key fields) cfg = true) :
+    (declX .dotted key fields).entries = (declX s key fields).entries
+    ∧ validate ld (specX false key fields) cfg = validate ld (specX true key fields) cfg := by
+  obtain ⟨he, _⟩ := C07_same_table_X key fields
+  refine ⟨by rw [he, he], ?_⟩
+  rw [← specX_erase true key fields]
+  exact validate_erase _ _ h
+
+/-! ### witnesses and non-vacuity (wider grammar) -/
+
+private def fldsX : List FieldX :=
+  [.leaf "a" .int (some (.int 0)),
+   .sub "n" [.leaf "x" .int none,
+             .optDc "o" [.leaf "p" .int none, .sub "q" [.leaf "z" .str (some (.str "s"))]],
+             .sub "deep" [.listDc "items" false [.leaf "w" .int none, .optDc "oo" [.leaf "v" .int none]]]],
+   .listDc "ls" true [.leaf "u" .int none],
+   .clsM "m" true true, .clsM "c" false false]
+
+/-- computed: the actions of the four styles (the fields `p`, `q.z`, `w`, `oo.v`, `u` of the member dataclasses are no actions) -/
+example : (actsL ["g"] fldsX).map (fun e => (e.path, e.plus, e.default.isNone))
+    = [(["g", "a"], false, false), (["g", "n", "x"], false, true), (["g", "n", "o"], false, false),
+       (["g", "n", "deep", "items"], true, false), (["g", "ls"], true, true), (["g", "m"], false, true), (["g", "c"], false, false)] := rfl
+example : ∀ s : Style, ((declX s "g" fldsX).entries.map fun e => e.path) = (actsL ["g"] fldsX).map fun e => e.path := by
+  intro s; cases s <;> rfl
+/-- the three difference classes on this list: all three are inhabited -/
+example : (declX .dotted "g" fldsX).wholes = [] ∧ (declX .dataclass "g" fldsX).wholes = [["g"], ["g", "n"], ["g", "n", "deep"]]
+    ∧ (declX .inner "g" fldsX).wholes = [["g"], ["g", "n"], ["g", "n", "deep"]]
+    ∧ (declX .inner "g" fldsX).helps = [] ∧ (declX .classArgs "g" fldsX).helps = [["g", "m"], ["g", "c"]]
+    ∧ (declX .dotted "g" fldsX).helps = [["g", "m"], ["g", "c"]]
+    ∧ (declX .dotted "g" fldsX).lenientNull = [["g", "m"]] ∧ (declX .inner "g" fldsX).lenientNull = [["g", "m"]]
+    ∧ (declX .dataclass "g" fldsX).lenientNull = [] := ⟨rfl, rfl, rfl, rfl, rfl, rfl, rfl, rfl, rfl⟩
+example : clsPathsL allCls ["g"] fldsX ≠ [] ∧ clsPathsL reqVia ["g"] fldsX ≠ [] := by decide
+
+private def fldsX0 : List FieldX := fldsX.take 3
+private def cfgX : KV :=
+  [("g", .dict [("a", .int 1), ("n", .dict [("x", .int 2), ("o", .dict [("p", .int 3), ("q", .dict [("z", .str "t")])]),
+      ("deep", .dict [("items", .list [.dict [("w", .int 4), ("oo", .dict [("v", .int 5)])]])])]), ("ls", .list [.dict [("u", .int 6)]])])]
+/-- non-vacuity of `C07_styles_nondotted_X` / `C07_styles_partial_X`: hypotheses hold, the configuration is accepted by both spec trees, and a
+    required field missing inside the Optional[Dataclass] member / inside an item of the List[Dataclass] member is reported identically -/
+example : clsPathsL allCls ["g"] fldsX0 = [] ∧ clsPathsL reqVia ["g"] fldsX0 = [] ∧ noStrKVs (specX true "g" fldsX0) cfgX = true := ⟨rfl, rfl, rfl⟩
+example : validate ld0 (specX true "g" fldsX0) cfgX = .ok () ∧ validate ld0 (specX false "g" fldsX0) cfgX = .ok () := ⟨rfl, rfl⟩
+example : validate ld0 (specX false "g" fldsX0) [("g", .dict [("n", .dict [("x", .int 2), ("o", .dict [("q", .dict [("z", .str "t")])])])])]
+      = .error (.required [.key "g", .key "n", .key "o", .key "p"] 3)
+    ∧ validate ld0 (specX true "g" fldsX0) [("g", .dict [("n", .dict [("x", .int 2), ("o", .dict [("q", .dict [("z", .str "t")])])])])]
+      = .error (.required [.key "g", .key "n", .key "o", .key "p"] 3) := ⟨rfl, rfl⟩
+/-- the proviso of `C07_styles_partial_X` is needed: a string at a group key (the class of C07-dotted-whole-group) -/
+example : validate ld0 (specX false "g" fldsX0) [("g", .dict [("n", .str "abc")])] = .error (.required [.key "g", .key "n", .key "x"] 0)
+    ∧ validate ld0 (specX true "g" fldsX0) [("g", .dict [("n", .str "abc")])] = .error (.type [.key "g", .key "n"] 0) := ⟨rfl, rfl⟩
 
 end Jap.Props.C07
